@@ -201,9 +201,11 @@ func algoEval(op string, args []string) string {
 }
 
 // alphabet touching every character class, ASCII and not
-var asciiAlpha = []rune("abcabcxyzABX019  \t/,:-_.|;")
+var asciiAlpha = []rune("abcabcxyzABX019  \t/,:-_.|;abcxyz019 AB-_/\x1f\x0e\x1b\x0b\r\x1c")
 var uniAlpha = []rune{0xe9, 0xc9, 0xe1, 0xf1, 0x1c5, 0x24b6, 0xdf, 0x4e2d, 0x663, 0xa0, 0x3000, 0xfffd, 0x130,
-	0x2160, 0x1e9e, 0x3c3, 0x3a3, 0x101, 0x1ea1, 0x2184, 0x300, 0x1f600, 0xb2, 0x85}
+	0x2160, 0x1e9e, 0x3c3, 0x3a3, 0x101, 0x1ea1, 0x2184, 0x300, 0x1f600, 0xb2, 0x85,
+	// capitals whose lower-case form is in the normalisation table while they themselves are not, and their lower-case forms
+	0x141, 0x142, 0x10c, 0x10d, 0x160, 0x17d, 0x106, 0x1ea0, 0x100}
 
 func genText(r *rand.Rand, n int) []rune {
 	t := make([]rune, n)
